@@ -184,6 +184,14 @@ def run(ctx):
             cases.append({"parser": parser.split("-")[0], "own": own, "w": [w.year, w.month, w.day, w.hour, w.minute, w.second, 0],
                           "offA": offA, "offT": offT, "offTz": offTz, "offTo": offTo, "hasTo": has_to, "rata": rata,
                           "s": s, "kw": kw, "settings": st, "api": "parse", "probe": False, "zones": [A[0], B[0] if has_to else None]})
+            # however the settings reach the library: a dict, a Settings object (settings.replace), or a dict that the
+            # caller empties again once the parser exists
+            r_ = rng.random()
+            if r_ < 0.2:
+                cases[-1]["via"] = "instance"
+            elif r_ < 0.35:
+                cases[-1]["via"] = "cleared"
+                cases[-1]["api"] = "ddp"
     results = core.run_cases(ctx, "harness.lib", "call_parse", cases, env=({"TZ": cases[0]["tzenv"]} if rep and cases[0].get("tzenv") else None))
     # ---- TIMEZONE='local': the process-local zone comes from the TZ environment of the worker processes
     if not rep:
@@ -280,7 +288,8 @@ def run(ctx):
     for t in tuples["REJECT"]:
         _, tid, kind, verdict, exp = t[:5]
         c, r = cases[tid], results[tid]
-        d = {"call": "dateparser.parse(%r, %s, settings=%r)" % (c["s"], ", ".join("%s=%r" % kv for kv in c["kw"].items()), c["settings"]), "parser": c["parser"], "TZ_env": c.get("tzenv")}
+        d = {"call": "dateparser.parse(%r, %s, settings=%r)" % (c["s"], ", ".join("%s=%r" % kv for kv in c["kw"].items()), c["settings"]), "parser": c["parser"], "TZ_env": c.get("tzenv"),
+             "settings_given_as": {"instance": "dateparser.conf.settings.replace(**settings)", "cleared": "a dict passed to DateDataParser(...) and emptied by the caller before get_date_data"}.get(c.get("via"), "a dict")}
         if kind == "abs":
             ctx.note_drift("Timezone", {"case": d, "model": exp, "observed": [r["out"], r["off"]]})
         else:
